@@ -33,6 +33,7 @@ type xferOpts struct {
 	srvTmux    string   // server inside tmux: "" | "normal" | "control"
 	actEdit    func(act map[string]any) // protocol-aware rewrite of the client's ACT (older/odd clients)
 	trigEdit   func(b []byte) []byte    // rewrite of the trigger as it leaves the server
+	srvCCFrame bool                     // the server's pane belongs to a tmux in control mode: its output reaches the next hop as %output lines, and what is typed towards it lands in tmux's command channel (recorded in ccTyped), not in its stdin
 	cols       int32
 	uploadVia  int // 0 OneTimeUpload, 1 UploadFiles (drag queue + scripted shell), 2 typed paths
 	// no default download path: the file dialog opens (a stand-in dialog program on PATH decides what the user did)
@@ -88,6 +89,7 @@ func (p transportProfile) String() string {
 
 type xferWorld struct {
 	termMark int // terminal offset at which the current transfer began
+	ccTyped  []byte // srvCCFrame: what was typed into tmux's command channel
 	rc *runCtx
 	w  *verifsim.World
 	o  *xferOpts
@@ -491,7 +493,35 @@ func (x *xferWorld) prepareServer() {
 	if o.actEdit != nil {
 		x.up[0].Mangle = vActMangler(o.actEdit)
 	}
+	if o.srvCCFrame {
+		prev := x.downLast().Mangle
+		x.downLast().Mangle = func(l *verifsim.Link, data []byte) []byte {
+			if prev != nil {
+				data = prev(l, data)
+			}
+			if len(data) == 0 {
+				return data
+			}
+			return []byte("%output %1 " + vTmuxEscape(data) + "\r\n")
+		}
+		x.upLast().Mangle = func(l *verifsim.Link, data []byte) []byte {
+			x.ccTyped = append(x.ccTyped, data...)
+			return nil
+		}
+	}
+}
 
+// vTmuxEscape renders pane output the way tmux control mode does: bytes below space and the backslash in octal.
+func vTmuxEscape(data []byte) string {
+	var b strings.Builder
+	for _, c := range data {
+		if c < ' ' || c == '\\' {
+			fmt.Fprintf(&b, "\\%03o", c)
+		} else {
+			b.WriteByte(c)
+		}
+	}
+	return b.String()
 }
 
 func (x *xferWorld) launchServer() {
